@@ -15,6 +15,7 @@ use vcore::{Cfg, Check, Cx, Finding, Meta, SUB_SETUP, Tier, Value, Violation, js
 mod cycctx;
 mod model;
 mod mutc;
+mod constcopy;
 use cycctx::{CCase, CUnit};
 use mutc::{MCase, MUnit};
 use model::{CYCLE_FORMS, Case, Expect, FORMS, Family, dags};
@@ -225,6 +226,8 @@ enum AnyUnit {
     Graph(Unit),
     CycCtx(CUnit),
     Mut(MUnit),
+    /// the whole family `copy` (constcopy.rs)
+    Copy,
 }
 
 fn unit_table(tier: Tier) -> Vec<AnyUnit> {
@@ -235,6 +238,7 @@ fn unit_table(tier: Tier) -> Vec<AnyUnit> {
             // after the complete n <= 3 part, before the large slices
             out.extend(cycctx::units(tier == Tier::Thorough).into_iter().map(AnyUnit::CycCtx));
             out.extend(mutc::units(tier == Tier::Thorough).into_iter().map(AnyUnit::Mut));
+            out.push(AnyUnit::Copy);
             cyc_done = true;
         }
         let total = model::DAG_COUNTS[s.n];
@@ -900,6 +904,10 @@ impl Check for C14 {
         }
         let u = match u {
             AnyUnit::Graph(u) => u,
+            AnyUnit::Copy => {
+                constcopy::run(cx);
+                return;
+            }
             AnyUnit::Mut(u) => {
                 let env = Plain(host::runtime());
                 // observed values per graph configuration: its cases differ only in the
@@ -963,6 +971,7 @@ impl Check for C14 {
         }
         let u = match u {
             AnyUnit::Graph(u) => u,
+            AnyUnit::Copy => return constcopy::describe(sub as usize),
             AnyUnit::Mut(u) => {
                 return match u.decode(sub) {
                     Some((_, c)) => mcase_json(&c),
